@@ -282,13 +282,19 @@ func NewParametersFromLiteral(residualParameters ckks.Parameters, btpLit Paramet
 		/* #nosec G115 -- logqi cannot be negative */
 		g := ring.NewNTTFriendlyPrimesGenerator(uint64(logqi), NthRoot)
 
+		// 61-bit moduli must stay below 2^61 (as in rlwe.GenModuli): only downstream primes
+		next := g.NextAlternatingPrime
+		if logqi == 61 {
+			next = g.NextDownstreamPrime
+		}
+
 		// Populates the list with primes that aren't yet in primesHave
 		primes := make([]uint64, k)
 		var i int
 		for i < k {
 
 			for {
-				qi, err := g.NextAlternatingPrime()
+				qi, err := next()
 
 				if err != nil {
 					return Parameters{}, fmt.Errorf("cannot NewParametersFromLiteral: NextAlternatingPrime for 2^{%d} +/- k*2N + 1: %w", logqi, err)
